@@ -112,6 +112,14 @@ class RuleRun:
         return self
 
 
+def rebrand(res: "RuleRun", prop: str, rule: str) -> "RuleRun":
+    """A rule deciding a clause that two properties share is run under the other property's name."""
+    res.prop, res.rule = prop, rule
+    for f in res.findings:
+        f.property, f.rule = prop, rule
+    return res
+
+
 # --------------------------------------------------------------------------------------------
 
 
